@@ -318,6 +318,23 @@ def stepLeaf (k : Kernel) (intDtype : Bool) (st : St) (inp : Inp) : St × List B
   | .expCWMH | .legCWMH =>
     let r := cwStep k (fun j _ => inp.ts.getD j nan) st inp.z inp.ells intDtype; (r.1, r.2.1)
 
+/-- Explicit class of non-finite points inside sessions: the EMPTY vector stands for the all-NaN point (real
+    points have `dim ≥ 1` coordinates, so `[]` is otherwise unused). -/
+def nanPoint : Vec := []
+
+/-- `stepLeaf` extended to pCN transitions whose proposal is the all-NaN vector: the contraction factor
+    `np.sqrt(1 - scale²)` is NaN (`scale > 1`), or the current point is already NaN.  The likelihood is still
+    evaluated (leaf) and the usual accept test applied (`pcnNanStep`); on acceptance the point becomes
+    `nanPoint`.  Everything else is `stepLeaf`. -/
+def stepLeafX (k : Kernel) (intDtype : Bool) (st : St) (inp : Inp) : St × List Bool :=
+  match k with
+  | .expPCN | .legPCN =>
+    if st.x = nanPoint ∨ pcnContractionDefined (scalar st) = false then
+      let r := pcnNanStep k st.logd (inp.ts.headD nan) (inp.ells.headD nan)
+      ({ st with x := if r.2 then nanPoint else st.x, logd := r.1 }, [r.2])
+    else stepLeaf k intDtype st inp
+  | _ => stepLeaf k intDtype st inp
+
 /-- which tuner / window a kernel's adaptation uses -/
 def Kernel.tuner : Kernel → Tuner
   | .expMH | .legMH => .mh
